@@ -143,11 +143,18 @@ func (m *memStore) writeTreeObj(entries []object.TreeEntry) (githash.Hash, error
 		}
 		return a < b
 	})
-	t := &object.Tree{Entries: entries}
+	// raw encoding (go-git's encoder refuses names with control characters, which git itself stores)
 	obj := m.st.NewEncodedObject()
-	if err := t.Encode(obj); err != nil {
+	obj.SetType(plumbing.TreeObject)
+	w, err := obj.Writer()
+	if err != nil {
 		return nil, err
 	}
+	for _, e := range entries {
+		fmt.Fprintf(w, "%o %s\x00", uint32(e.Mode), e.Name)
+		w.Write(e.Hash.Bytes())
+	}
+	w.Close()
 	h, err := m.st.SetEncodedObject(obj)
 	if err != nil {
 		return nil, err
